@@ -123,8 +123,23 @@ def _ops(nr, nc, ds, rng):
         ("classify_estuaries", lambda f: f.classify_estuaries(elv - 5, full + 1)),
         ("distnc", lambda f: f.distnc), ("area", lambda f: f.area),
         ("add_pits", lambda f: (f.add_pits(idxs=outl[:1]), f.idxs_ds.copy(), f.idxs_pit, f.rank)[1:]),
+        # a save / load round trip keeps the index type's own sentinel (round-5 seed), before and after the order is known
+        ("dump_load", lambda f: _reload(f)), ("dump_load_ordered", lambda f: (f.idxs_seq, _reload(f))[1]),
     ]
     return ops
+
+
+def _reload(f):
+    import os
+    from common import CACHE
+    import pyflwdir
+    d = os.path.join(CACHE, "c16")
+    os.makedirs(d, exist_ok=True)
+    fn = os.path.join(d, f"obj_{os.getpid()}.pkl")
+    f.dump(fn)
+    g = pyflwdir.FlwdirRaster.load(fn)
+    os.remove(fn)
+    return (g.idxs_ds, g.mask, g.rank, g.idxs_pit, g.upstream_area(), g.n_upstream, g.idxs_us_main, g.to_array("nextxy"), g.downstream(g.rank))
 
 
 def _vector(f, upa0):
